@@ -317,7 +317,7 @@ theorem ag_round {m0 : Mem} {bk bl0 fa cell bu bua be bea : Nat} {us es : List E
             (start + (selBy (agP us) es i).length) (by omega)
         have hfalt := C.fa_lt
         have hgrow : m0.length ≤ (mem ++ [noneLit]).length := h1.grows
-        obtain ⟨m', bl'', gl'', hex, hEnt, hG', hnames, hfr, ⟨ablk', b1, b2, b3, b4, b5, b6⟩, hlen', hblor, hkw', hne', hd', hgll⟩ :=
+        obtain ⟨m', bl'', gl'', hex, hEnt, hG', hnames, hfr, ⟨ablk', b1, b2, b3, b4, b5, b6⟩, hlen', hblor, hkw', hne', hd', hgll, hfreshv⟩ :=
           C_fe_append (mem ++ [noneLit]) bk bl' cell fa bea (7 * i) gl' es[i] _ _ agSrc (.incdec (.var 5) true true .u64) 7 (start + (selBy (agP us) es i).length) cap
             d1 hE d3 d4 d5 (by omega) (C.lines _ (List.getElem_mem hi)) fuel (by omega) rfl rfl (by simp) (by decide) hsrc hidx rfl
             cblk hcM c2 c3 ⟨hcav.1, hbl'ne cell hclt hcav.2.1⟩ ablk a1 a2 a3 a5 a4 ⟨C.fa_ne.1, hbl'ne fa C.fa_lt C.fa_ne.2⟩ (by have := C.room; omega)
